@@ -4,7 +4,8 @@ open Wire C38
 
 /-
 ops (booleans 0/1):
-  variant current|verifyfirst|repaired  -> ok      (selects the modelled ProcWalletSetPasswd, resets the state)
+  variant code|old|oldverifyfirst       -> ok      (selects the modelled ProcWalletSetPasswd, resets the state;
+                                                   `code` = /repo as it is, the default)
   reset <memPw01>                       -> ok      (fresh locked wallet with a seed)
   unlock <pwOk> <ticketOnly> <timeout>  -> ok | ErrInputPassword | ErrVerifyOldpasswdFail
   lock | timer | restart                -> ok
@@ -19,7 +20,7 @@ a label that is not enabled in the model answers `not-enabled` (state unchanged)
 -/
 
 structure DState where
-  v : Variant := current
+  v : Variant := code
   s : State := {}
 
 def bool? (s : String) : Option Bool := if s == "1" then some true else if s == "0" then some false else none
@@ -58,9 +59,9 @@ def stop? (s : String) : Option Stop :=
 
 def stepLine (d : DState) (line : String) : DState × String :=
   match words line with
-  | ["variant", "current"] => ({ v := current }, "ok")
-  | ["variant", "verifyfirst"] => ({ v := verifyFirstV }, "ok")
-  | ["variant", "repaired"] => ({ v := repaired }, "ok")
+  | ["variant", "code"] => ({ v := code }, "ok")
+  | ["variant", "old"] => ({ v := oldCode }, "ok")
+  | ["variant", "oldverifyfirst"] => ({ v := oldVerifyFirst }, "ok")
   | ["reset", m] =>
     match bool? m with
     | some m => ({ d with s := { memPw := m } }, "ok")
